@@ -160,9 +160,13 @@ func judge(c engine.Case) engine.Outcome {
 	saved2 := string(out2)
 	// A result must stay what it was when later calls are made (no storage
 	// shared between calls).
-	_ = hclwrite.Format([]byte("zz = [ 1,2 ]\nyy {\n}\n"))
+	other := hclwrite.Format([]byte("zz = [ 1,2 ]\nyy {\n}\n"))
+	changed := string(out) != saved || string(out2) != saved2
+	if len(out) > 0 && len(other) > 0 && len(out2) > 0 && (&out[0] == &other[0] || &out2[0] == &other[0] || &out[0] == &out2[0]) {
+		changed = true // two results share their storage
+	}
 	out3 := hclwrite.Format(src)
-	if string(out) != saved || string(out2) != saved2 || string(out3) != saved {
+	if changed || string(out3) != saved || string(other) != "zz = [1, 2]\nyy {\n}\n" {
 		return engine.Fail("c09.result-changed-by-later-call", "the bytes returned by Format(%q) changed after later Format calls: first %q, now %q / %q / %q", src, saved, out, out2, out3)
 	}
 	if !bytes.Equal(out, out2) {
